@@ -591,6 +591,9 @@ class IntersectionMatcher(AdditiveBiMatcher):
                 # We want to always leave in a state where the matchers are at
                 # the same document, so call _find_next() to sync them
                 self._find_next()
+                if not (a.is_active() and b.is_active()):
+                    # Syncing ran one of the matchers off its end
+                    break
 
             # Get the block qualities at the new matcher positions
             aq = a.block_quality()
